@@ -51,10 +51,11 @@ const (
 	lcPartialClose
 	lcDiscard
 	lcProto
+	lcTooSmall // ToByteSlice with a limit below the object's size: rejected, the handle must still be released
 	nLeafCons
 )
 
-var leafConsNames = []string{"ToByteSlice", "ToReader", "ToChunkReader", "ReadAt", "IntoWriter", "PartialReadThenClose", "Discard", "ToProto"}
+var leafConsNames = []string{"ToByteSlice", "ToReader", "ToChunkReader", "ReadAt", "IntoWriter", "PartialReadThenClose", "Discard", "ToProto", "ToByteSliceLimitTooSmall"}
 
 type progNode struct {
 	Op       int
@@ -64,6 +65,7 @@ type progNode struct {
 	MaxChunk int
 	ReadBuf  int
 	Task     int  // index of the task attached by WithTask
+	Sibling  bool // WithTask: the task consumes a stream clone of the same buffer (what a replicator does)
 	Spawn    bool // CloneCopy: consume the second copy in its own goroutine
 }
 
@@ -74,6 +76,9 @@ func (n *progNode) String() string {
 	case poCloneStream, poCloneCopy:
 		return fmt.Sprintf("%s(%s, %s)", progOpNames[n.Op], n.A, n.B)
 	case poWithTask:
+		if n.Sibling {
+			return fmt.Sprintf("WithSiblingConsumingTask#%d(%s)", n.Task, n.A)
+		}
 		return fmt.Sprintf("WithTask#%d(%s)", n.Task, n.A)
 	default:
 		return fmt.Sprintf("%s(%s)", progOpNames[n.Op], n.A)
@@ -234,6 +239,27 @@ func runC15Case(c *sim.RunCtx, cs *c15Case) {
 			case poWithTask:
 				k := n.Task
 				t := cs.Tasks[k]
+				if n.Sibling {
+					// the shape replicators use: CloneStream, one clone goes to
+					// the caller with a task attached that feeds the other clone
+					// to a sink
+					b1, b2 := b.CloneStream()
+					nb := b1.WithTask(func() error {
+						t.Runs++
+						for i := 0; i < t.Parks; i++ {
+							rt.Yield("task")
+						}
+						b2.IntoWriter(io.Discard)
+						t.Done = true
+						if t.Fail {
+							return taskErr(k)
+						}
+						return nil
+					})
+					c.Count("probe_sibling_consuming_task", 1)
+					run(n.A, nb, append(append([]int{}, tasks...), k))
+					break
+				}
 				nb := b.WithTask(func() error {
 					t.Runs++
 					for i := 0; i < t.Parks; i++ {
@@ -278,7 +304,7 @@ func runC15Case(c *sim.RunCtx, cs *c15Case) {
 				// has finished (an error, an early Close or a Discard by one of
 				// several stream clones is not "completion": the last consumer
 				// to leave waits for the task)
-				completed := leaf.Err == nil && n.Cons != lcPartialClose && n.Cons != lcDiscard
+				completed := leaf.Err == nil && n.Cons != lcPartialClose && n.Cons != lcDiscard && n.Cons != lcTooSmall
 				for _, k := range tasks {
 					if completed && !cs.Tasks[k].Done {
 						c.Fail("completed-before-task", "%s returned (err=%v) before attached task #%d had finished [%s]", leafConsNames[n.Cons], leaf.Err, k, cs)
@@ -303,7 +329,7 @@ func runC15Case(c *sim.RunCtx, cs *c15Case) {
 			return
 		}
 		n := l.Node
-		if n.Cons == lcDiscard {
+		if n.Cons == lcDiscard || n.Cons == lcTooSmall {
 			continue
 		}
 		failedTask := -1
@@ -495,6 +521,13 @@ func c15Consume(c *sim.RunCtx, cs *c15Case, l *c15Leaf, b buffer.Buffer, size in
 	case lcDiscard:
 		b.Discard()
 		l.Partial = true
+	case lcTooSmall:
+		if size == 0 {
+			b.Discard()
+		} else {
+			_, l.Err = b.ToByteSlice(size - 1)
+		}
+		l.Partial = true
 	case lcProto:
 		_, err := b.ToProto(&remoteexecution.Digest{}, 1<<20)
 		l.Err = err
@@ -518,7 +551,7 @@ func drawProg(t *sim.Tape, depth int, tasks *[]*c15Task) *progNode {
 	case 2:
 		k := len(*tasks)
 		*tasks = append(*tasks, &c15Task{Parks: t.Choose(6), Fail: t.Chance(1, 3)})
-		return &progNode{Op: poWithTask, Task: k, A: drawProg(t, depth-1, tasks)}
+		return &progNode{Op: poWithTask, Task: k, Sibling: t.Chance(1, 3), A: drawProg(t, depth-1, tasks)}
 	case 3:
 		return &progNode{Op: poWithErrorHandler, A: drawProg(t, depth-1, tasks)}
 	default:
@@ -556,7 +589,7 @@ func c15Random(c *sim.RunCtx) {
 // c15Exhaustive enumerates all programs of depth <= 2 over every buffer kind
 // with a fixed small content and a representative set of leaf consumers.
 func c15Exhaustive(c *sim.RunCtx) {
-	leafs := []int{lcByteSlice, lcChunkReader, lcReader, lcDiscard, lcPartialClose}
+	leafs := []int{lcByteSlice, lcChunkReader, lcReader, lcDiscard, lcPartialClose, lcTooSmall}
 	var gen func(depth int) []func() (*progNode, int)
 	// returns constructors (fresh tree each call) together with the number of tasks they need
 	gen = func(depth int) []func() (*progNode, int) {
@@ -574,6 +607,7 @@ func c15Exhaustive(c *sim.RunCtx) {
 		for _, a := range sub {
 			a := a
 			out = append(out, func() (*progNode, int) { n, k := a(); return &progNode{Op: poWithTask, A: n}, k + 1 })
+			out = append(out, func() (*progNode, int) { n, k := a(); return &progNode{Op: poWithTask, Sibling: true, A: n}, k + 1 })
 			out = append(out, func() (*progNode, int) { n, k := a(); return &progNode{Op: poGetSize, A: n}, k })
 			out = append(out, func() (*progNode, int) { n, k := a(); return &progNode{Op: poWithErrorHandler, A: n}, k })
 			for _, b := range sub {
